@@ -22,11 +22,11 @@ def resolver_core(ctx):
     """the generic resolver: function with a closure-typed (Fn) parameter that contains >= 3 selection sites"""
     by_fn = defaultdict(list)
     for s in _def_sites(ctx):
-        by_fn[s.fn.id].append(s)
+        by_fn[s.owner].append(s)
     cands = []
     for fid, ss in by_fn.items():
-        f = ctx.bin.fns[fid]
-        if any(s.filter_param for s in ss) and len(ss) >= 3:
+        f = ctx.bin.fns.get(fid)
+        if f is not None and any(s.filter_param for s in ss) and len(ss) >= 3:
             cands.append(f)
     return cands[0] if len(cands) == 1 else None
 
@@ -40,7 +40,7 @@ def _disambiguate(sites):
     out = {}
     cnt = defaultdict(int)
     for s in sites:
-        base = "%s|%s|fields=%s|cmp=%s" % (s.fn.id, s.descr(), ",".join(sorted(s.fields)) or "-", ",".join(sorted(set(s.path_cmp))) or "-")
+        base = "%s|%s|fields=%s|cmp=%s" % (s.owner, s.descr(), ",".join(sorted(s.fields)) or "-", ",".join(sorted(set(s.path_cmp))) or "-")
         cnt[base] += 1
         out[id(s)] = base if cnt[base] == 1 else "%s#%d" % (base, cnt[base])
     return out
@@ -52,7 +52,7 @@ def r5a_visibility(ctx, fns=None, rule="R5a"):
                      "definition that is not visible from the requesting file whenever two files define the name")
     sites = [s for s in _def_sites(ctx) if s.kind in ("call", "loop", "push")]
     if fns is not None:
-        sites = [s for s in sites if any(s.fn.root.endswith("::" + n) or s.fn.id.endswith("::" + n) for n in fns)]
+        sites = [s for s in sites if any(s.owner.endswith("::" + n) or s.fn.root.endswith("::" + n) for n in fns)]
     keys = _disambiguate(sites)
     for s in sites:
         key = "%s|%s" % (rule, keys[id(s)])
@@ -84,7 +84,7 @@ def r5b_filter_everywhere(ctx):
     if core is None:
         r.anchor_missing("resolver core", "not found")
         return r
-    sites = [s for s in _def_sites(ctx) if s.fn.id == core.id]
+    sites = [s for s in _def_sites(ctx) if s.owner == core.id]
     keys = _disambiguate(sites)
     for s in sites:
         key = "R5b|%s" % keys[id(s)]
@@ -362,7 +362,7 @@ def r5d_siblings(ctx):
     # sibling resolvers: functions (not the core) with >= 3 stages among their selection sites and a Path parameter
     by_fn = defaultdict(list)
     for s in _def_sites(ctx):
-        by_fn[s.fn.id].append(s)
+        by_fn[s.owner].append(s)
     sibs = []
     for fid, ss in by_fn.items():
         if fid == core.id:
@@ -402,7 +402,7 @@ def r5d_siblings(ctx):
                                "redefines the name gets two different answers" % (
                                    fid.split("::")[-1], "first" if s.klass == "first-match" else s.klass, s.descr(),
                                    ctx.bin.span_str(s.span), "last by line" if ref[st].klass == "extremum" else ref[st].klass, ref[st].descr()))
-    r.floor("sibling resolvers", len(sibs), 2)
+    r.floor("sibling resolvers", len(sibs), 1)
     return r
 
 
@@ -421,8 +421,8 @@ def r4c_order_sensitive(ctx):
             continue
         n += 1
         key = "R4c|%s" % keys[id(s)]
-        pins = [c for c in s.path_cmp if c.startswith("request:") or c == "conftest" or c.startswith("call:uri_to_path")
-                or c == "closure-param" or c.startswith("elem-field:")]
+        # any equality test of the element's file_path against a value that is not computed from the element itself
+        pins = [c for c in s.path_cmp if c not in ("other", "elem-field:both")]
         if pins and "file_path" in s.fields:
             r.ok(sample={"site": s.descr(), "fn": s.fn.id.split("::")[-1], "pinned_to": sorted(set(pins))} if len(r.samples) < 6 else None)
         elif key in REVIEWED:
@@ -441,7 +441,7 @@ def r5e_same_file_last(ctx):
     if core is None:
         r.anchor_missing("resolver core", "not found")
         return r
-    sf = [s for s in _def_sites(ctx) if s.fn.id == core.id and stage_of(s) == "same-file"]
+    sf = [s for s in _def_sites(ctx) if s.owner == core.id and stage_of(s) == "same-file"]
     if len(sf) != 1:
         r.anchor_missing("same-file stage", "found %d selection sites pinned to the request path" % len(sf))
         return r
